@@ -4,6 +4,8 @@
 #include "K_pdm_get_index.c"
 #include "K_pds_get_offset.c"
 #include "K_fss_reorder.c"
+#include "K_pdm_ctor_layout.c"
+#include "K_pds_activate_TOF.c"
 #define CONTRACT_K_pd_set_segment_by_sinogram CONTRACT_K_pd_set_segment
 #define CONTRACT_K_pd_set_segment_by_view CONTRACT_K_pd_set_segment
 #define CONTRACT_K_pd_get_segment_by_sinogram CONTRACT_K_pd_get_segment
@@ -94,6 +96,14 @@ void h_K_pd_fill_value(void) { struct PD* s; ghosts_loops(); K_pd_fill_value(s);
 void h_K_pd_fill_from(void) { struct PD* s; ghosts_loops(); K_pd_fill_from(s); }
 void h_K_pds_get_segment_by_sinogram(void) { struct PD* s; ghosts_read(); K_pds_get_segment_by_sinogram(s, nondet_int(), nondet_int()); }
 void h_K_pds_get_segment_by_view(void) { struct PD* s; ghosts_read(); K_pds_get_segment_by_view(s, nondet_int(), nondet_int()); }
+static void ghosts_layout(void)
+{
+  ghosts();
+  for (int i = 0; i <= MAXSEGS; ++i) g_sprefix[i] = nondet_long();
+  g_t = nondet_int(); g_tseq_len = nondet_int(); g_tseq_at_t = nondet_int(); g_tseq_writes = 0;
+}
+void h_K_pdm_ctor_layout(void) { struct PD* s; ghosts_layout(); K_pdm_ctor_layout(s); }
+void h_K_pds_activate_TOF(void) { struct PD* s; ghosts_layout(); K_pds_activate_TOF(s); }
 void h_K_fss_reorder(void)
 {
   g_r = nondet_int(); g_zero = nondet_int(); g_rloc = nondet_int(); g_fss_min_seg = nondet_int(); g_fss_max_seg = nondet_int();
